@@ -240,7 +240,7 @@ class Case:
             h = self.images.get(s)
             if h is None:
                 continue
-            raw = canon_image(bytes.fromhex(h))
+            raw = bytes.fromhex(h)
             ch = []
             for i in range(0, len(raw), 4):
                 ch.append("0x%xp+0%%float" % int.from_bytes(raw[i:i + 4], "little"))
